@@ -190,13 +190,14 @@ void exhaustiveHeight(const int height, const Args& args, Report& rep, Progress&
         // chunks of 64 cells per work unit
         for(long first = 0 ; first < nb ; first += 64){
             if((ordinal++) % args.nbSlices != args.slice) continue;
-            if(rep.timeUp()){ rep.exhaustive = false; return; }
+            if(rep.timeUp()){ rep.cut(); return; }
             for(long m = first ; m < std::min(nb, first+64) ; ++m){
                 const Coord c = vref::unmorton(m, Dim, level);
                 const std::string cs = ck.caseStr(level, c, "per-cell");
                 if(!pg.begin(cs)) continue;
                 Outcome out; ck.checkCell(level, c, out);
                 rep.evaluations += 1; if(level >= 2) rep.nontrivial += 1;
+                if(rep.evaluations % 1009 == 1) rep.sample(cs);
                 rep.addOutcome(out, cs, std::string(Traits<SI>::name()) + ":");
             }
             pg.publish(rep);
@@ -220,6 +221,7 @@ void exhaustiveHeight(const int height, const Args& args, Report& rep, Progress&
                 if(!pg.begin(cs)) continue;
                 Outcome out; ck.checkGroup(level, g, out);
                 rep.evaluations += 1; rep.nontrivial += 1;
+                if(rep.evaluations % 1013 == 1) rep.sample(cs);
                 rep.addOutcome(out, cs, std::string(Traits<SI>::name()) + ":");
             }
         }
